@@ -158,6 +158,8 @@ type conCase struct {
 	CloneStep bool `json:"clonestep,omitempty"`
 	// Predefined: name of a predefined CMap (kind "frame-cid")
 	Predefined string `json:"predefined,omitempty"`
+	// NotdefSingles: one-code notdef ranges are given as notdefchar entries
+	NotdefSingles bool `json:"notdefsingles,omitempty"`
 	// table expectations (P-C only; nil for random cases)
 	want map[string]val
 	// the chain read as one map (P-C only)
@@ -190,6 +192,7 @@ type record struct {
 	ParentName string `json:"parentname"`
 	CloneStep  bool   `json:"clonestep"`
 	Predefined string `json:"predefined"`
+	NotdefSingles bool `json:"notdefsingles"`
 	// ProbeCodes repeats the probed codes (also when the real code failed before
 	// answering): a replay needs them
 	ProbeCodes [][]int `json:"probecodes"`
